@@ -1136,6 +1136,8 @@ class EqWorld(BaseWorld):
             phases = tuple(s.phases)
         except Exception:
             return False
+        if self.regions and self.in_region(ev):
+            return False             # (shrinking must not drift into an excluded known-finding region)
         if op == 'vle':
             if ev.get('spec') not in SPEC_PAIRS:
                 return False
